@@ -182,120 +182,132 @@ def check_irq(scn: Dict[str, Any], hist: Dict[str, Any], steps: Optional[List[Di
             for bit in SRC_BITS:
                 if (pre[O_ISR] & bit) and not (prev[O_ISR] & bit):
                     deliverable = (pre[O_IMR] & 0x80) and (pre[O_IMR] & bit) and not in_handler
-                    if not deliverable:
+                    if not deliverable and not any(fr.get("served", 0) & bit for fr in frames):
                         owed[bit] = True
                         probe("rise_while_masked")
                 if not (pre[O_ISR] & bit) and (prev[O_ISR] & bit):
                     owed[bit] = False     # host-side clear (e.g. ON key released)
 
-        # ---- delivery: gate + frame
-        if d is not None:
-            probe("delivery")
-            if in_handler:
-                probe("nested_delivery")
-            if pw_pre == 1:
-                probe("delivery_out_of_halt")
-            if tag == "WAIT" or (st["ex_addr"] is not None and img.get(st["ex_addr"]) == 0xEF):
-                probe("delivery_after_wait")
-            pend = d["isr_d"] & 0x0F
-            imr_d, isr_d = d["imr_d"], d["isr_d"]
-            sig.append(("deliver", pw_pre, in_handler, imr_d >> 7, imr_d & 0xF, isr_d & 0xF))
-            if not (imr_d & 0x80):
-                srcs = "+".join(SRC_NAME[b] for b in SRC_BITS if isr_d & b) or "none"
-                V("gate_master", k, f"interrupt taken with IMR={imr_d:#04x} (master clear), ISR={isr_d:#04x} "
-                  f"(pending {srcs})", key_or_onk_pending=bool(isr_d & 0x0C))
-            elif not (isr_d & 0x7F):
-                V("gate_not_pending", k, f"interrupt taken with no status bit pending (IMR={imr_d:#04x} ISR={isr_d:#04x})")
-            elif not (imr_d & isr_d & 0x7F):
-                srcs = "+".join(SRC_NAME[b] for b in SRC_BITS if isr_d & b) or "other"
-                V("gate_mask", k, f"interrupt taken but no pending source is unmasked (IMR={imr_d:#04x} ISR={isr_d:#04x}, "
-                  f"pending {srcs})")
-            if bin(isr_d & imr_d & 0xF).count("1") > 1:
-                probe("two_sources_deliverable")
-            # frame
-            fr = d["frame"]
-            s_before = d["s_before"]
-            bad = []
-            if d["s_after"] != ((s_before - 5) & 0xFFFFF):
-                bad.append(f"S={d['s_after']:#x} expected {((s_before - 5) & 0xFFFFF):#x}")
-            if fr is None:
-                bad.append("frame not at S_old-5")
-            else:
-                exp = [d["imr_before"], d["f"], d["resume_pc"] & 0xFF, (d["resume_pc"] >> 8) & 0xFF,
-                       (d["resume_pc"] >> 16) & 0xFF]
-                names = ["IMR", "F", "PC0", "PC1", "PC2"]
-                for i in range(5):
-                    if fr[i] != exp[i]:
-                        bad.append(f"{names[i]}={fr[i]:#04x} expected {exp[i]:#04x}")
-            if d["imr_after"] is not None and d["imr_after"] != (d["imr_before"] & 0x7F):
-                bad.append(f"IMR after={d['imr_after']:#04x} expected {(d['imr_before'] & 0x7F):#04x}")
-            if not d["pc_ok"]:
-                bad.append(f"PC after delivery {post[O_PC]:#x}, vector -> {handler:#x}")
-            if d["regs_after"] != d["regs_before"]:
-                bad.append("delivery changed BA/I/X/Y/U")
-            if bad:
-                V("frame", k, "; ".join(bad), field=bad[0].split("=")[0].split(" ")[0])
-            frames.append({"kind": "hw", "s_before": s_before, "pc": d["resume_pc"], "f": d["f"],
-                           "imr": d["imr_before"], "regs": d["regs_before"], "k": k})
-            # every source unmasked+pending at that instant counts as served (weakest)
-            for bit in SRC_BITS:
-                if (imr_d & bit) and (isr_d & bit):
-                    owed[bit] = False
-
-        # ---- the instruction that executed
-        if st["executed"] and opcode is not None:
-            aft = st["after"]
-            if opcode == 0xFE and not (d is not None and d["order"] == "before_exec"):
-                # software interrupt: a call through the vector that RETI must undo
-                probe("ir")
-                exp_pc = (pre[O_PC] + 1) & 0xFFFFF
-                s_before = pre[O_S] & 0xFFFFF
+        def do_delivery():
+            # ---- delivery: gate + frame
+            if d is not None:
+                probe("delivery")
+                if frames:
+                    probe("nested_delivery")
+                if pw_pre == 1:
+                    probe("delivery_out_of_halt")
+                if tag == "WAIT" or (st["ex_addr"] is not None and img.get(st["ex_addr"]) == 0xEF):
+                    probe("delivery_after_wait")
+                pend = d["isr_d"] & 0x0F
+                imr_d, isr_d = d["imr_d"], d["isr_d"]
+                sig.append(("deliver", pw_pre, bool(frames), imr_d >> 7, imr_d & 0xF, isr_d & 0xF))
+                if not (imr_d & 0x80):
+                    srcs = "+".join(SRC_NAME[b] for b in SRC_BITS if isr_d & b) or "none"
+                    V("gate_master", k, f"interrupt taken with IMR={imr_d:#04x} (master clear), ISR={isr_d:#04x} "
+                      f"(pending {srcs})", key_or_onk_pending=bool(isr_d & 0x0C))
+                elif not (isr_d & 0x7F):
+                    V("gate_not_pending", k, f"interrupt taken with no status bit pending (IMR={imr_d:#04x} ISR={isr_d:#04x})")
+                elif not (imr_d & isr_d & 0x7F):
+                    srcs = "+".join(SRC_NAME[b] for b in SRC_BITS if isr_d & b) or "other"
+                    V("gate_mask", k, f"interrupt taken but no pending source is unmasked (IMR={imr_d:#04x} ISR={isr_d:#04x}, "
+                      f"pending {srcs})")
+                if bin(isr_d & imr_d & 0xF).count("1") > 1:
+                    probe("two_sources_deliverable")
+                # frame
+                fr = d["frame"]
+                s_before = d["s_before"]
                 bad = []
-                chk = post if d is None else None
-                if chk is not None:
-                    if (post[O_S] & 0xFFFFF) != ((s_before - 5) & 0xFFFFF):
-                        bad.append(f"S={post[O_S]:#x}")
-                    else:
-                        fr = post[O_STACK][:5]
-                        exp = [pre[O_IMR], pre[O_F], exp_pc & 0xFF, (exp_pc >> 8) & 0xFF, (exp_pc >> 16) & 0xFF]
-                        for i, nm in enumerate(["IMR", "F", "PC0", "PC1", "PC2"]):
-                            if fr[i] != exp[i]:
-                                bad.append(f"{nm}={fr[i]:#04x} expected {exp[i]:#04x}")
-                    if post[O_PC] != handler:
-                        bad.append(f"PC={post[O_PC]:#x} expected vector {handler:#x}")
-                    if post[O_IMR] != (pre[O_IMR] & 0x7F):
-                        bad.append(f"IMR={post[O_IMR]:#04x} expected {(pre[O_IMR] & 0x7F):#04x}")
-                    if bad:
-                        V("ir_frame", k, "IR: " + "; ".join(bad), field=bad[0].split("=")[0])
-                frames.append({"kind": "ir", "s_before": s_before, "pc": exp_pc, "f": pre[O_F],
-                               "imr": pre[O_IMR], "k": k,
-                               "regs": [pre[O_BA], pre[O_I], pre[O_X], pre[O_Y], pre[O_U]]})
-            elif opcode == 0x01:
-                # RETI.  With delivery-before-execute ordering the RETI ran from `pre`;
-                # with execute-before-delivery ordering its result is `after`.
-                s_at = pre[O_S] & 0xFFFFF
-                if d is not None and d["order"] == "before_exec":
-                    s_at = None    # the executed instruction was the handler's first NOP
-                if frames and s_at is not None and s_at == ((frames[-1]["s_before"] - 5) & 0xFFFFF):
-                    fr = frames.pop()
-                    probe("reti")
+                if d["s_after"] != ((s_before - 5) & 0xFFFFF):
+                    bad.append(f"S={d['s_after']:#x} expected {((s_before - 5) & 0xFFFFF):#x}")
+                if fr is None:
+                    bad.append("frame not at S_old-5")
+                else:
+                    exp = [d["imr_before"], d["f"], d["resume_pc"] & 0xFF, (d["resume_pc"] >> 8) & 0xFF,
+                           (d["resume_pc"] >> 16) & 0xFF]
+                    names = ["IMR", "F", "PC0", "PC1", "PC2"]
+                    for i in range(5):
+                        if fr[i] != exp[i]:
+                            bad.append(f"{names[i]}={fr[i]:#04x} expected {exp[i]:#04x}")
+                if d["imr_after"] is not None and d["imr_after"] != (d["imr_before"] & 0x7F):
+                    bad.append(f"IMR after={d['imr_after']:#04x} expected {(d['imr_before'] & 0x7F):#04x}")
+                if not d["pc_ok"]:
+                    bad.append(f"PC after delivery {post[O_PC]:#x}, vector -> {handler:#x}")
+                if d["regs_after"] != d["regs_before"]:
+                    bad.append("delivery changed BA/I/X/Y/U")
+                if bad:
+                    V("frame", k, "; ".join(bad), field=bad[0].split("=")[0].split(" ")[0])
+                frames.append({"kind": "hw", "s_before": s_before, "pc": d["resume_pc"], "f": d["f"],
+                               "imr": d["imr_before"], "regs": d["regs_before"], "k": k,
+                               "served": imr_d & isr_d & 0x0F})
+                # every source unmasked+pending at that instant counts as served (weakest)
+                for bit in SRC_BITS:
+                    if (imr_d & bit) and (isr_d & bit):
+                        if owed[bit]:
+                            probe("masked_then_taken")
+                        owed[bit] = False
+
+        def do_instruction():
+            # ---- the instruction that executed
+            if st["executed"] and opcode is not None:
+                aft = st["after"]
+                if opcode == 0xFE and not (d is not None and d["order"] == "before_exec"):
+                    # software interrupt: a call through the vector that RETI must undo
+                    probe("ir")
+                    exp_pc = (pre[O_PC] + 1) & 0xFFFFF
+                    s_before = pre[O_S] & 0xFFFFF
                     bad = []
-                    if aft["pc"] != fr["pc"]:
-                        bad.append(f"PC={aft['pc']:#x} expected {fr['pc']:#x}")
-                    if aft["f"] != fr["f"]:
-                        bad.append(f"F={aft['f']:#04x} expected {fr['f']:#04x}")
-                    if aft["imr"] != fr["imr"]:
-                        bad.append(f"IMR={aft['imr']:#04x} expected {fr['imr']:#04x}")
-                    if (aft["s"] & 0xFFFFF) != fr["s_before"]:
-                        bad.append(f"S={aft['s']:#x} expected {fr['s_before']:#x}")
-                    if aft["regs"] != fr["regs"]:
-                        bad.append(f"BA/I/X/Y/U={aft['regs']} expected {fr['regs']}")
-                    if bad:
-                        V("reti", k, f"return from {fr['kind']} interrupt taken at boundary {fr['k']}: " + "; ".join(bad),
-                          field=bad[0].split("=")[0], kind=fr["kind"])
-                elif frames and s_at is not None:
-                    probe("reti_unmatched")
-                    frames.clear()   # cannot interpret: resynchronise rather than guess
+                    chk = post if d is None else None
+                    if chk is not None:
+                        if (post[O_S] & 0xFFFFF) != ((s_before - 5) & 0xFFFFF):
+                            bad.append(f"S={post[O_S]:#x}")
+                        else:
+                            fr = post[O_STACK][:5]
+                            exp = [pre[O_IMR], pre[O_F], exp_pc & 0xFF, (exp_pc >> 8) & 0xFF, (exp_pc >> 16) & 0xFF]
+                            for i, nm in enumerate(["IMR", "F", "PC0", "PC1", "PC2"]):
+                                if fr[i] != exp[i]:
+                                    bad.append(f"{nm}={fr[i]:#04x} expected {exp[i]:#04x}")
+                        if post[O_PC] != handler:
+                            bad.append(f"PC={post[O_PC]:#x} expected vector {handler:#x}")
+                        if post[O_IMR] != (pre[O_IMR] & 0x7F):
+                            bad.append(f"IMR={post[O_IMR]:#04x} expected {(pre[O_IMR] & 0x7F):#04x}")
+                        if bad:
+                            V("ir_frame", k, "IR: " + "; ".join(bad), field=bad[0].split("=")[0])
+                    frames.append({"kind": "ir", "s_before": s_before, "pc": exp_pc, "f": pre[O_F],
+                                   "imr": pre[O_IMR], "k": k,
+                                   "regs": [pre[O_BA], pre[O_I], pre[O_X], pre[O_Y], pre[O_U]]})
+                elif opcode == 0x01:
+                    # RETI.  With delivery-before-execute ordering the RETI ran from `pre`;
+                    # with execute-before-delivery ordering its result is `after`.
+                    s_at = pre[O_S] & 0xFFFFF
+                    if d is not None and d["order"] == "before_exec":
+                        s_at = None    # the executed instruction was the handler's first NOP
+                    if frames and s_at is not None and s_at == ((frames[-1]["s_before"] - 5) & 0xFFFFF):
+                        fr = frames.pop()
+                        probe("reti")
+                        bad = []
+                        if aft["pc"] != fr["pc"]:
+                            bad.append(f"PC={aft['pc']:#x} expected {fr['pc']:#x}")
+                        if aft["f"] != fr["f"]:
+                            bad.append(f"F={aft['f']:#04x} expected {fr['f']:#04x}")
+                        if aft["imr"] != fr["imr"]:
+                            bad.append(f"IMR={aft['imr']:#04x} expected {fr['imr']:#04x}")
+                        if (aft["s"] & 0xFFFFF) != fr["s_before"]:
+                            bad.append(f"S={aft['s']:#x} expected {fr['s_before']:#x}")
+                        if aft["regs"] != fr["regs"]:
+                            bad.append(f"BA/I/X/Y/U={aft['regs']} expected {fr['regs']}")
+                        if bad:
+                            V("reti", k, f"return from {fr['kind']} interrupt taken at boundary {fr['k']}: " + "; ".join(bad),
+                              field=bad[0].split("=")[0], kind=fr["kind"])
+                    elif frames and s_at is not None:
+                        probe("reti_unmatched")
+                        frames.clear()   # cannot interpret: resynchronise rather than guess
+
+        if d is not None and d["order"] == "before_exec":
+            do_delivery()
+            do_instruction()
+        else:
+            do_instruction()
+            do_delivery()
 
         # ---- status bits that vanish although nobody (firmware, host, RETI of their own
         # delivery) cleared them
@@ -303,8 +315,11 @@ def check_irq(scn: Dict[str, Any], hist: Dict[str, Any], steps: Optional[List[Di
         for bit in SRC_BITS:
             rose = (post[O_ISR] & bit) and not (pre[O_ISR] & bit)
             fell = (pre[O_ISR] & bit) and not (post[O_ISR] & bit)
-            if rose and not writer:
-                # could it be taken at the end of this step?
+            being_served = any(fr.get("served", 0) & bit for fr in frames)
+            if rose and not writer and not being_served:
+                # could it be taken at the end of this step?  (A further edge of a source
+                # whose handler is still running is not a separate request: the handler's
+                # acknowledge covers it — weakest reading.)
                 deliverable = (post[O_IMR] & 0x80) and (post[O_IMR] & bit) and not frames
                 if d is not None and (d["imr_d"] & bit) and (d["isr_d"] & bit):
                     pass   # served immediately
